@@ -195,7 +195,11 @@ def capping(ctx):
                     q = m_binop(sq[0], "/")
                     if q is not None and q[0].op == "const" and q[0].args[0] == 2.0 and \
                             q[1].op == "attr" and q[1].args[1] == "dt":
-                        thr_ok = True
+                        # the time step is the propagator's: the cap must read it from the propagator that took the steps
+                        # (a copy kept on the sampler has a default of its own and other construction sites)
+                        prm_ = [x.name for x in fi.params]
+                        owner = strip_wrappers(q[1].args[0])
+                        thr_ok = not (owner.op == "sym" and owner.args[0] == (prm_[0] if prm_ else "self"))
                 if est is None:
                     why = "the cap does not test |e - e_estimate| of the samples it passes through"
                 elif a is not est:
@@ -216,6 +220,21 @@ def capping(ctx):
         else:
             why = "cap condition is not a '>' comparison"
     ctx.ob("GUARD-1", "sampler._block_scan: energy samples capped at sqrt(2/dt) around e_estimate", okg, why, fi)
+    # the auxiliary fields of a block are one draw whose shape is fixed by (steps, walkers, fields): the random stream must
+    # not depend on how the walkers are split into batches
+    from ..symex import match_scan, subterms as _sub3
+    scans = [x for x in _sub3(R) if x.op == "call" and match_scan(x) is not None]
+    dep = []
+    for sc in scans:
+        xs = match_scan(sc)[2]
+        if xs is None or not hasattr(xs, "op"):
+            continue
+        if any(y.op == "attr" and y.args[1] == "n_batch" for y in _sub3(xs)):
+            dep.append(show(xs, maxdepth=3)[:80])
+    if scans:
+        ctx.ob("DET-1", "sampler._block_scan: the fields handed to the step scan do not depend on n_batch", not dep,
+               f"fields built from n_batch: {dep[:2]}" if dep else f"{len(scans)} step scan(s), fields independent of the batching",
+               fi)
     # the energy is measured on the walkers whose weights are used
     bw = getitem(R.args[1], const(1))
     ctx.ob("WMEAN-1", "sampler._block_scan: reported block weight is the normaliser", _is_sum_of(bw, d),
